@@ -184,6 +184,11 @@ def diff_orient(ctx):
     for d, (kind, v, node), taken, flips, notes in rets:
         desc = ' / '.join('%s=%s' % (norm_text(t.test)[:50], dd) for t, dd in taken)
         ok = v == (1, -1)
+        # a value the sign interpreter could not follow is not a finding
+        ctx.need(isinstance(v, tuple) and len(v) == 2 and
+                 all(isinstance(c_, (int, float)) for c_ in v),
+                 'compute_state_difference: the returned value on the path [%s] is not read as '
+                 'a signed combination of the operands' % desc[:120])
         ctx.ob('DIFF-ORIENT', ok, None, 'path [%s] returns +first -second' % desc, f=f,
                node=node, key='path-' + ''.join('T' if x else 'F' for x in d),
                why='on the path [%s] the result is %s*first + %s*second: the difference is not '
